@@ -69,6 +69,7 @@ var allFaults = []string{
 	"trunc1", "trunc2", "trunc3", "trunc4",
 	"req-inputs-overflow", "req-huge-allowance", "req-no-inputs", "req-zero-fee", "resp-inputs-overflow",
 	"with-parked",
+	"host-store-broadcast-fail",
 	"resp-inputs-short", "final-empty", "final-bad-sig", "final-bad-renewal-sig", "final-txid",
 }
 
@@ -448,6 +449,13 @@ func (w *world) run(s script) *outcome {
 	}
 	allowance, collateral := w.amounts(s, o.Existing.Revision)
 
+	if s.Fault == "host-store-broadcast-fail" {
+		// the host wallet's store cannot record the set it broadcasts (bookkeeping for
+		// rebroadcasts): whatever the wallet makes of that, the attempt must end as a
+		// whole - committed on both sides or without a contract and reservations
+		w.H.hs.failBroadcasted = true
+		defer func() { w.H.hs.failBroadcasted = false }()
+	}
 	if s.Fault == "elem-lookup-fail" {
 		w.rc.failElement = true
 		defer func() { w.rc.failElement = false }()
